@@ -66,29 +66,32 @@ Proof.
     rewrite <- E. exact P1.
 Qed.
 
-(* compileTryStatement in function-body mode inside the fragment *)
+(* compileTryStatement in function-body mode *)
 Lemma try_code_fn : forall bs pos b hasc c hasf f,
-  bs_ok bs -> (hasf = true -> direct_branch f = false) ->
+  bs_ok bs ->
   try_code bs pos false b hasc c hasf f =
-  let bs' := tblk :: bs in
+  let bs' := tbr (try_breaking bs hasf f) :: bs in
   let pb := pos + 1 in
   let cb := compile_ss bs' pb None 0 b in
   let pab := pb + length cb in
   let cc := if hasc then compile_ss bs' (pab + 2) None 0 c else [] in
   let ccatch := if hasc then [IJump (Z.of_nat (length cc + 2)); IPop] ++ cc else [] in
   let pf := pab + length ccatch in
-  let cf := if hasf then compile_ss bs' (pf + 1) None 0 f else [] in
+  let cf := if hasf then compile_ss (tblk :: bs) (pf + 1) None 0 f else [] in
   [ITry (if hasc then pab + 1 - pos else 0) (if hasf then pf + 1 - pos else 0)] ++ cb ++ ccatch
     ++ (if hasf then [IEnterFinally] ++ cf ++ [ILeaveFinally] else [ILeaveTry]).
 Proof.
-  intros bs pos b hasc c hasf f Hbs Hdb.
-  assert (SC : snd (try_scan bs hasf f) = None).
-  { unfold try_scan. destruct hasf; [|reflexivity]. apply scan_no_direct. auto. }
-  assert (BR : try_breaking bs hasf f = None) by (unfold try_breaking; rewrite SC; reflexivity).
-  assert (NR : try_bnr bs false hasf f = false) by (unfold try_bnr; rewrite SC; reflexivity).
-  assert (FC : try_fclr bs false hasf f = []) by (unfold try_fclr; rewrite SC; reflexivity).
-  assert (OK : bs_ok (tblk :: bs)) by (constructor; [split; reflexivity|assumption]).
-  unfold try_code. rewrite BR, NR, FC. fold tblk. cbv zeta.
+  intros bs pos b hasc c hasf f Hbs.
+  assert (OK0 : bs_ok (tb0 :: bs)) by (constructor; [reflexivity|assumption]).
+  assert (NR : try_bnr bs false hasf f = false).
+  { unfold try_bnr. destruct (snd (try_scan bs hasf f)) as [k|]; auto.
+    destruct (fst (try_scan bs hasf f)); auto. apply bs_ok_nth. exact OK0. }
+  assert (FC : try_fclr bs false hasf f = []).
+  { unfold try_fclr. rewrite NR. destruct (snd (try_scan bs hasf f)); auto. destruct (fst (try_scan bs hasf f)); auto. }
+  assert (OK1 : bs_ok (tbr (try_breaking bs hasf f) :: bs)) by (constructor; [reflexivity|assumption]).
+  assert (OK2 : bs_ok (tblk :: bs)) by (constructor; [reflexivity|assumption]).
+  unfold try_code. rewrite NR, FC. fold tblk. fold (tbr (try_breaking bs hasf f)). cbv zeta.
+  rewrite !(list_mode_fn (tbr (try_breaking bs hasf f) :: bs)) by assumption.
   rewrite !(list_mode_fn (tblk :: bs)) by assumption.
   simpl (clr false). simpl (length []). rewrite !Nat.add_0_r. reflexivity.
 Qed.
@@ -196,7 +199,7 @@ Proof.
   intros n IHs IHL k l body V skip sc tr c sc' H Hfr code bs lb testpos bodypos st NN Hbs Hty Hlab Hnr Hbrk Hc HT HA HC Hpc Hsc.
   rewrite exec_loop_S in H.
   set (cb := compile (lb :: bs) bodypos false body) in *.
-  assert (OKb : bs_ok (lb :: bs)) by (constructor; [split; assumption|assumption]).
+  assert (OKb : bs_ok (lb :: bs)) by (constructor; [assumption|assumption]).
   set (pres := negb (has_ret body)). set (g := rff body).
   (* from the start of the body *)
   assert (CONT : forall s1 sc1 tr1 c1 sc1', pc s1 = bodypos -> script s1 = sc1 ->
@@ -434,23 +437,22 @@ Lemma case_try : forall n b hasc cc hasf f, goal_list n -> stmt_goal_at n (Try b
 Proof.
   intros n b hasc cc hasf f IHl sc tr c sc' H Hfr code bs pos st NN Hbs Hc Hpc Hsc.
   cbn [frag] in Hfr.
-  pose proof (andb_r _ _ Hfr) as Fd. pose proof (andb_l _ _ Hfr) as Hfr1.
-  pose proof (andb_r _ _ Hfr1) as Ff. pose proof (andb_l _ _ Hfr1) as Hfr2.
-  pose proof (andb_r _ _ Hfr2) as Fc. pose proof (andb_l _ _ Hfr2) as Fb. clear Hfr Hfr1 Hfr2.
-  assert (Hdb : hasf = true -> direct_branch f = false).
-  { intro E. rewrite E in Fd. simpl in Fd. apply negb_true_iff in Fd. exact Fd. }
+  pose proof (andb_r _ _ Hfr) as Ff. pose proof (andb_l _ _ Hfr) as Hfr1.
+  pose proof (andb_r _ _ Hfr1) as Fc. pose proof (andb_l _ _ Hfr1) as Fb. clear Hfr Hfr1.
   rewrite compile_try_eq, try_code_fn in Hc |- * by auto. cbv zeta in Hc |- *.
-  set (bs' := tblk :: bs) in *.
+  set (br := try_breaking bs hasf f) in *.
+  set (bs' := tbr br :: bs) in *.
   set (cb := compile_ss bs' (pos + 1) None 0 b) in *.
   set (pab := pos + 1 + length cb) in *.
   set (cc' := if hasc then compile_ss bs' (pab + 2) None 0 cc else []) in *.
   set (ccatch := if hasc then [IJump (Z.of_nat (length cc' + 2)); IPop] ++ cc' else []) in *.
   set (pf := pab + length ccatch) in *.
-  set (cf := if hasf then compile_ss bs' (pf + 1) None 0 f else []) in *.
+  set (cf := if hasf then compile_ss (tblk :: bs) (pf + 1) None 0 f else []) in *.
   set (fin := if hasf then [IEnterFinally] ++ cf ++ [ILeaveFinally] else [ILeaveTry]) in *.
   set (coff := if hasc then pab + 1 - pos else 0) in *.
   set (foff := if hasf then pf + 1 - pos else 0) in *.
-  assert (OK' : bs_ok bs') by (constructor; [split; reflexivity|assumption]).
+  assert (OK' : bs_ok bs') by (constructor; [reflexivity|assumption]).
+  assert (OKf : bs_ok (tblk :: bs)) by (constructor; [reflexivity|assumption]).
   cbn [has_ret rff].
   set (pres := negb (has_rets b || has_rets cc || has_rets f)).
   set (g := rffs b && rffs cc && rffs f && negb (has_rets f)).
@@ -513,12 +515,16 @@ Proof.
                 arrives code (tblk :: bs) sF (pf + 1 + length (compile_ss (tblk :: bs) (pf + 1) None 0 f))
                         (negb (has_rets f)) (rffs f) F tf sc3).
       { intros sF HpF HsF. apply code_at_app in Hfin. destruct Hfin as [_ Hf2]. apply code_at_app in Hf2. destruct Hf2 as [Hf2 _].
-        simpl in Hf2. exact (IHl f None sc2 tf F sc3 EF Ff code (tblk :: bs) (pf + 1) sF 0 NN OK' Hf2 HpF HsF). }
-      pose proof (try_tail_fin code bs f pf NN Hfin (negb (has_rets f)) (rffs f) sc2 sc3 tf F HF
+        simpl in Hf2. exact (IHl f None sc2 tf F sc3 EF Ff code (tblk :: bs) (pf + 1) sF 0 NN OKf Hf2 HpF HsF). }
+      assert (HBR : br <> None -> is_normal F = false).
+      { intro Hne. unfold br, try_breaking in Hne.
+        destruct (snd (try_scan bs true f)) as [k|] eqn:ES; [|congruence].
+        unfold try_scan in ES. apply scan_some_direct in ES. eapply direct_branch_abrupt; eauto. }
+      pose proof (try_tail_fin code bs f pf NN Hfin (negb (has_rets f)) (rffs f) sc2 sc3 tf F HF br HBR
                    st sR cpR endR presR gR pres g C1 t1 tr0 HB HR HN HT HU Hp1 Pf Hg1 Gf Gp) as X.
-      replace (pf + length ([IEnterFinally] ++ compile_ss bs' (pf + 1) None 0 f ++ [ILeaveFinally]))
+      replace (pf + length ([IEnterFinally] ++ compile_ss (tblk :: bs) (pf + 1) None 0 f ++ [ILeaveFinally]))
         with (pf + 1 + length (compile_ss (tblk :: bs) (pf + 1) None 0 f) + 1).
-      2:{ simpl. rewrite app_length. simpl. unfold bs'. lia. }
+      2:{ simpl. rewrite app_length. simpl. lia. }
       exact X.
     - injection HX as <- <- <-. apply arrives_update_empty.
       simpl length. exact (try_tail_nofin code bs pf st sR cpR endR presR gR pres g C1 t1 tr0 sc2 NN Hfin HB HR HN HT HU Hp1 Hg1). }
@@ -662,8 +668,8 @@ Proof.
     set (lb0 := mkBlk BLabel (Some l) 0 0 false None) in *.
     set (len0 := length (compile_ss (lb0 :: bs) pos (list_mode (lb0 :: bs) false b) 0 b)) in *.
     set (lb := mkBlk BLabel (Some l) (pos + len0) 0 false None) in *.
-    assert (OK0 : bs_ok (lb0 :: bs)) by (constructor; [split; reflexivity|assumption]).
-    assert (OK1 : bs_ok (lb :: bs)) by (constructor; [split; reflexivity|assumption]).
+    assert (OK0 : bs_ok (lb0 :: bs)) by (constructor; [reflexivity|assumption]).
+    assert (OK1 : bs_ok (lb :: bs)) by (constructor; [reflexivity|assumption]).
     rewrite (list_mode_fn (lb :: bs)) in Hc |- * by assumption.
     set (cb := compile_ss (lb :: bs) pos None 0 b) in *.
     assert (L0 : len0 = length cb).
